@@ -169,6 +169,20 @@ class TypeGen:
         if k == "annprim":
             base = pick(d, ["str", "int", "float"])
             c = self.constraints(base)
+            if c and self.cfg.get("stacked_constraints", True) and chance(d, 0.3):
+                # the same keywords declared at two levels (json_schema.md: "constraints are merged"): Annotated over a
+                # constrained NewType or over another Annotated; patterns / multipleOf are not stacked (no merge defined)
+                c2 = self.constraints(base)
+                if c2:
+                    for kw in ("pattern", "mult_of"):
+                        if kw in c:
+                            c2.pop(kw, None)
+                if c2:
+                    if chance(d, 0.5):
+                        nt = {"name": f"N{self.uid()}", "of": {"k": base}, "c": c}
+                        self.prog["newtypes"].append(nt)
+                        return {"k": "ann", "of": {"k": "newtype", "i": len(self.prog["newtypes"]) - 1}, "c": c2}
+                    return {"k": "ann", "of": {"k": "ann", "of": {"k": base}, "c": c}, "c": c2}
             return {"k": "ann", "of": {"k": base}, "c": c} if c else {"k": base}
         return {"k": k}
 
